@@ -296,7 +296,15 @@ func ruleEnvelopeShape(c *Ctx, rule string) {
 			c.fail(rule, key+": callback shape", w.At(e.Alloc), "data frame is not emitted from a (data, size, first) send callback: unrecognised shape")
 			continue
 		}
-		firstP := fn.Params[2]
+		off := 0 // a method used as callback (method value): its receiver comes first
+		if sig.Recv() != nil {
+			off = 1
+		}
+		if len(fn.Params) != 3+off {
+			c.fail(rule, key+": callback shape", w.At(e.Alloc), "data frame is not emitted from a (data, size, first) send callback: unrecognised shape")
+			continue
+		}
+		firstP := fn.Params[2+off]
 		var pol *bool
 		for _, f := range boolFactsAt(e.Send) {
 			if f.V == firstP {
@@ -306,11 +314,11 @@ func ruleEnvelopeShape(c *Ctx, rule string) {
 		}
 		if isMsg {
 			c.check(pol != nil && *pol, rule, key+": on the first-chunk branch", w.At(e.Alloc), "message frame built only when first == true", "message (envelope) frame is not control-dependent on first == true")
-			c.check(paramIdx(fn, e.Payload[fld+".Size"]) == 1, rule, key+": Size = total size parameter", w.At(e.Alloc), "Size = "+desc(e.Payload[fld+".Size"]), "envelope Size is "+desc(e.Payload[fld+".Size"])+", expected the callback's total-size parameter")
-			c.check(paramIdx(fn, e.Payload[fld+".Data"]) == 0, rule, key+": Data = data parameter", w.At(e.Alloc), "Data = "+desc(e.Payload[fld+".Data"]), "envelope Data is "+desc(e.Payload[fld+".Data"])+", expected the callback's data parameter unchanged")
+			c.check(paramIdx(fn, e.Payload[fld+".Size"]) == 1+off, rule, key+": Size = total size parameter", w.At(e.Alloc), "Size = "+desc(e.Payload[fld+".Size"]), "envelope Size is "+desc(e.Payload[fld+".Size"])+", expected the callback's total-size parameter")
+			c.check(paramIdx(fn, e.Payload[fld+".Data"]) == off, rule, key+": Data = data parameter", w.At(e.Alloc), "Data = "+desc(e.Payload[fld+".Data"]), "envelope Data is "+desc(e.Payload[fld+".Data"])+", expected the callback's data parameter unchanged")
 		} else {
 			c.check(pol != nil && !*pol, rule, key+": on the continuation branch", w.At(e.Alloc), "continuation frame built only when first == false", "continuation frame is not control-dependent on first == false")
-			c.check(paramIdx(fn, e.Payload[cfld]) == 0, rule, key+": data = data parameter", w.At(e.Alloc), "payload = "+desc(e.Payload[cfld]), "continuation payload is "+desc(e.Payload[cfld])+", expected the callback's data parameter unchanged")
+			c.check(paramIdx(fn, e.Payload[cfld]) == off, rule, key+": data = data parameter", w.At(e.Alloc), "payload = "+desc(e.Payload[cfld]), "continuation payload is "+desc(e.Payload[cfld])+", expected the callback's data parameter unchanged")
 		}
 		// the send's result is returned (errors are not swallowed)
 		if call, ok := e.Send.(*ssa.Call); ok {
